@@ -803,6 +803,27 @@ def _resolve_mcs_deps(obj, resolved, dynamic, intermediate=True):
     return dependencies
 
 
+def _subpaths(event, what, changed):
+    """
+    The (sub-path, what) pairs an internal watcher of sub-object
+    dependencies compares for an event; None: the event always counts.
+    """
+    if isinstance(changed, dict):
+        # Sub-paths to compare for each watched parameter; None marks a
+        # parameter that is depended on directly and always counts
+        return changed.get(event.name)
+    return [(p, what) for p in changed]
+
+
+def _reached(obj, p, what):
+    """What is reached from obj through the sub-path p."""
+    if obj is None:
+        return Undefined
+    if what == 'value':
+        return _getattrr(obj, p, None)
+    return _getattrr(obj.param[p], what, None)
+
+
 def _skip_event(*events, **kwargs):
     """
     Check whether a subobject event should be skipped.
@@ -815,21 +836,15 @@ def _skip_event(*events, **kwargs):
     if changed is None:
         return False
     for e in events:
-        if isinstance(changed, dict):
-            # Sub-paths to compare for each watched parameter; None marks a
-            # parameter that is depended on directly and always counts
-            subpaths = changed.get(e.name)
-            if subpaths is None:
-                return False
-        else:
-            subpaths = [(p, what) for p in changed]
+        subpaths = _subpaths(e, what, changed)
+        if subpaths is None:
+            return False
+        # (an event that waited for the end of a batch knows what was
+        # reached through the previous subobject when it was replaced)
+        before = getattr(e, 'reached', {})
         for p, what in subpaths:
-            if what == 'value':
-                old = Undefined if e.old is None else _getattrr(e.old, p, None)
-                new = Undefined if e.new is None else _getattrr(e.new, p, None)
-            else:
-                old = Undefined if e.old is None else _getattrr(e.old.param[p], what, None)
-                new = Undefined if e.new is None else _getattrr(e.new.param[p], what, None)
+            old = before[(p, what)] if (p, what) in before else _reached(e.old, p, what)
+            new = _reached(e.new, p, what)
             if not Comparator.is_equal(old, new):
                 return False
     return True
@@ -940,6 +955,32 @@ _add_doc(DInfo,
     """)
 
 Event = namedtuple("Event", "what name obj cls old new type")
+
+
+class _QueuedEvent(Event):
+    """
+    An Event waiting for the end of a batch. It remembers the watcher it
+    was queued for (a watcher is handed the events of the parameters
+    that had a qualifying event for it, not those that only qualified
+    for another watcher). For the internal watchers of sub-object
+    dependencies `reached` holds what was reached through the replaced
+    object at the time it was replaced: until the batch ends that object
+    may be modified, or be attached again.
+    """
+
+    # (no __slots__: carries the attributes `reached` and `watcher`)
+
+    reached = None
+    watcher = None   # the watcher it qualified for when it was queued
+
+    @classmethod
+    def of(cls, event, reached=None, watcher=None):
+        queued = cls(*event)
+        if reached:
+            queued.reached = reached
+        if watcher is not None:
+            queued.watcher = watcher
+        return queued
 _add_doc(Event,
     """
     Object representing an event that triggers a Watcher.
@@ -2550,6 +2591,10 @@ class Parameters:
                 if successor is not None:
                     wobj.param._state_watchers = [
                         successor if w == q else q for q in wobj.param._state_watchers]
+                    for queued in wobj.param._events:
+                        # (with the events that were queued for it)
+                        if getattr(queued, 'watcher', None) is not None and queued.watcher == w:
+                            queued.watcher = successor
         for m in init_methods:
             m()
 
@@ -3089,8 +3134,11 @@ class Parameters:
             event_type = 'triggered'
         else:
             event_type = 'changed' if watcher.onlychanged else 'set'
-        return Event(what=event.what, name=event.name, obj=event.obj, cls=event.cls,
-                     old=event.old, new=event.new, type=event_type)
+        typed = Event(what=event.what, name=event.name, obj=event.obj, cls=event.cls,
+                      old=event.old, new=event.new, type=event_type)
+        if getattr(event, 'reached', None) and hasattr(watcher.fn, '_watcher_name'):
+            typed = _QueuedEvent.of(typed, event.reached)
+        return typed
 
     def _execute_watcher(self, watcher, events):
         if watcher.mode == 'args':
@@ -3120,7 +3168,18 @@ class Parameters:
             return
 
         if self_._BATCH_WATCH:
-            self_._events.append(event)
+            keywords = getattr(watcher.fn, 'keywords', None) if hasattr(watcher.fn, '_watcher_name') else None
+            reached = {}
+            if keywords and keywords.get('changed') is not None:
+                # A method depending on something reached through the
+                # object being replaced: whether that changes is judged at
+                # the end of the batch, against what is reached now
+                for p, what in _subpaths(event, keywords.get('what', 'value'), keywords['changed']) or []:
+                    try:
+                        reached[(p, what)] = _reached(event.old, p, what)
+                    except Exception:
+                        pass
+            self_._events.append(_QueuedEvent.of(event, reached, watcher))
             if not any(watcher is w for w in self_._state_watchers):
                 self_._state_watchers.append(watcher)
         else:
@@ -3138,21 +3197,43 @@ class Parameters:
                 # One event per parameter: from the value held before the
                 # first queued assignment to the final value
                 event_dict = OrderedDict()
+                initial = {}
+                qualified = defaultdict(set)
                 for event in self_._events:
-                    first = event_dict.get((event.name, event.what))
-                    if first is not None and first.old is not event.old:
+                    key = (event.name, event.what)
+                    if getattr(event, 'watcher', None) is not None:
+                        qualified[id(event.watcher)].add(key)
+                    first = event_dict.get(key)
+                    if first is None:
+                        initial[key] = event.old
+                    elif event.old is not initial.get(key, event.old):
+                        # (no longer the first assignment of the batch)
+                        initial.pop(key, None)
+                    reached = dict(getattr(first, 'reached', None) or {})
+                    if key in initial:
+                        for path, value in (getattr(event, 'reached', None) or {}).items():
+                            reached.setdefault(path, value)
+                    if first is not None and (first.old is not event.old or reached):
                         event = Event(what=event.what, name=event.name, obj=event.obj, cls=event.cls,
                                       old=first.old, new=event.new, type=event.type)
-                    event_dict[(event.name, event.what)] = event
+                    if reached:
+                        event = _QueuedEvent.of(event, reached)
+                    elif type(event) is not Event:
+                        event = Event(*event)
+                    event_dict[key] = event
                 watchers = self_._state_watchers[:]
                 self_._events = []
                 self_._state_watchers = []
 
                 for watcher in sorted(watchers, key=lambda w: w.precedence):
+                    # (a watcher that took the place of a waiting one, see
+                    # _update_deps, is handed whatever there is)
+                    mine = qualified.get(id(watcher))
                     events = [self_._update_event_type(watcher, event_dict[(name, watcher.what)],
                                                        self_._TRIGGER)
                               for name in watcher.parameter_names
-                              if (name, watcher.what) in event_dict]
+                              if (name, watcher.what) in event_dict
+                              and (mine is None or (name, watcher.what) in mine)]
                     with _batch_call_watchers(self_.self_or_cls, enable=watcher.queued, run=False):
                         self_._execute_watcher(watcher, events)
         except BaseException:
